@@ -198,6 +198,10 @@ namespace mustache {
         [[nodiscard]] const SharedComponentsData& data() const noexcept {
             return data_;
         }
+
+        [[nodiscard]] const std::vector<SharedComponentId>& ids() const noexcept {
+            return ids_;
+        }
         
         [[nodiscard]] bool empty() const noexcept {
             return data_.empty();
